@@ -150,15 +150,15 @@ PROPS["C02"] = {
 
 PROPS["C17"] = {
     "level": "other",
-    "technique": "Verus contract on the row-building loop of convert_prom_to_arrow (one row per sample of every series in order; every column one cell per row; each row carries its own series' metric name, its sample's timestamp in ns and its series' label values, None where the series lacks the label), over the Kani-decided value routing and ms->ns scaling of the same text; Verus typestate contract on the extracted OTLP export_request_to_data_points (eight nested loops: every point is built from the resource attributes of the ResourceMetrics entry it belongs to, with its own metric name and timestamp); Verus totality + termination contracts on the extracted protobuf reader (read_varint, parse_sample, parse_label, parse_timeseries, parse_write_request: every index, slice bound and addition proved safe for all byte strings, position strictly increasing); Kani complete harnesses for the checked end computation, the value routing over all f64 bit patterns and the ms->ns conversion; bounded harness for the varint value",
-    "verus": ["c17_parsers.rs.in", "c17_otlp.rs.in", "c17_prom_rows.rs.in"],
+    "technique": "Verus contract on the row-building loop of convert_prom_to_arrow (one row per sample of every series in order; every column one cell per row; each row carries its own series' metric name, its sample's timestamp in ns and its series' label values, None where the series lacks the label), over the Kani-decided value routing and ms->ns scaling of the same text; Verus functional contract on the extracted OTLP export_request_to_data_points (eight nested loops: the output is, in request order, exactly one point per data point of the request, each with its own timestamp, metric name and the resource attributes of its own ResourceMetrics entry merged with its own), on number_point_to_metric_point and on data_points_to_arrow (one row per point; fixed columns carry timestamp / name / value; exactly one column per label key occurring in any point, cell = the point's value for the key or NULL); Verus typestate contract on handle_remote_write (204 only after exactly the converted batch was written once; undecodable bodies are answered 400 and write nothing); Verus totality + termination + completeness contracts on the extracted protobuf reader (read_varint, parse_sample, parse_label, parse_timeseries, parse_write_request: every index, slice bound and addition proved safe for all byte strings, position strictly increasing; a varint is refused only if truncated or longer than ten bytes); Kani complete harnesses for the checked end computation, the value routing over all f64 bit patterns, the ms->ns conversion and the OTLP number value (exact for doubles and integers up to 2^53); bounded harness for the varint value",
+    "verus": ["c17_parsers.rs.in", "c17_otlp.rs.in", "c17_prom_rows.rs.in", "c17_handler.rs.in"],
     "kani": ["c17_ingest"],
-    "explanation": "Parser totality and termination are proved unbounded by Verus on the extracted text; end computation, value routing (all f64 bit patterns) and ms->ns conversion are complete Kani proofs; the varint value formula is checked by a bounded Kani harness (16-byte window). Row-level fidelity of the conversion loops (labels, ordering) and the OTLP path are not under contract, hence level other.",
+    "explanation": "Parser totality and termination are proved unbounded by Verus on the extracted text; end computation, value routing (all f64 bit patterns) and ms->ns conversion are complete Kani proofs; the varint value formula is checked by a bounded Kani harness (16-byte window). Values are opaque in the Verus units (f64 conversions are decided by the Kani units); snappy / prost / Flight decoding and FlightIngestService::process_stream are not under contract; known finding F28 (OTLP integers beyond 2^53). Hence level other.",
     "assumptions": [
         "a Rust slice never spans more than isize::MAX bytes",
         "String::from_utf8_lossy, f64::from_le_bytes do not panic (shims); snappy / prost / Flight decoders return errors rather than panic (external, not verified)",
         "alloc::fmt::format is stubbed in the Kani harnesses (error-message text only)",
-        "the per-series fidelity loop of convert_prom_to_arrow (labels, row order) and the OTLP conversion are not under contract: the claim covers parser totality, end computation, value routing and timestamp conversion",
+        "arrow array constructors (TimestampNanosecondArray / StringArray / Float64Array ::from, with_timezone) keep the vector they are given cell for cell; RecordBatch::try_new fails unless there is one equally long column per field; HashMap keys() / HashSet iteration yield each element once",
     ],
 }
 
@@ -228,7 +228,7 @@ PROPS["C15"] = {
 
 PROPS["C18"] = {
     "level": "other",
-    "technique": "Verus contracts on the extracted QueryFilter::apply (merge-point cut on the timestamp column, conjunction of the predicate list, row selection: exactly the wanted rows are delivered, None only if there is none), apply_predicate_to_mask (AND / OR / NOT over masks), apply_comparison and compare_f64 (row mask of `column OP literal` over typed arrow arrays: NULL never matches, every operator is its own symbol, a number literal is compared numerically against both numeric column types); Verus contracts on the extracted TopicFilter::matches (equals the filter's denotation, recursion through And / Or with the any / all closures lifted), FilteredReceiver::recv (delivers the first pending batch that matches, skips exactly the non-matching ones before it), the publishing side (Ingester::extract_metrics returns exactly the non-null metric names of the batch it is given; the publish step of flush_batches sends one topic batch whose metadata -- metric list and shard -- describes the very batch it carries) and the WHERE-clause extractor of the live filter (try_column_op_value, try_extract_comparison, conjunction_of, extract_predicates_from_expr over a sqlparser AST shim: for comparisons in either operand order, AND, OR and parentheses the conjunction of the extracted list is equivalent to the WHERE clause)",
+    "technique": "Verus contracts on the extracted QueryFilter::apply (merge-point cut on the timestamp column, conjunction of the predicate list, row selection: exactly the wanted rows are delivered, None only if there is none), apply_predicate_to_mask (AND / OR / NOT over masks), apply_comparison and compare_f64 (row mask of `column OP literal` over typed arrow arrays: NULL never matches, every operator is its own symbol, a number literal is compared numerically against both numeric column types); Verus contracts on the extracted TopicFilter::matches (equals the filter's denotation, recursion through And / Or with the any / all closures lifted), FilteredReceiver::recv (delivers the first pending batch that matches, skips exactly the non-matching ones before it), the publishing side (Ingester::extract_metrics returns exactly the non-null metric names of the batch it is given; the publish step of flush_batches sends one topic batch whose metadata -- metric list and shard -- describes the very batch it carries) and the WHERE-clause extractor of the live filter (from_sql, extract_predicates_from_set_expr, try_column_op_value, try_extract_comparison, conjunction_of, extract_predicates_from_expr over a sqlparser AST shim: the filter of a one-statement `SELECT ... WHERE e` is built from e; for comparisons in either operand order, AND, OR and parentheses the conjunction of the extracted list is equivalent to the WHERE clause)",
     "frame_scans": [{"file": "src/ingester/mod.rs", "patterns": ["topic_broadcast.send(", "TopicBatch {"],
                      "allowed_units": ["flush_publish"],
                      "message": "topic batches are built and published only by the flush path under contract (metadata describes the batch that is sent)"}],
